@@ -1,4 +1,5 @@
 """C12 -- condition blocks combine operators, keys, values and qualifiers as IAM specifies."""
+import copy
 import json
 
 import core
@@ -161,6 +162,38 @@ class SameObjectSurface(BlockSurface):
         return m[0] == "OK" and len({repr(v) for v in m[1]}) > 1
 
 
+class TemplatePathSurface(BlockSurface):
+    """the path a linter really takes: the block sits in a statement of a policy in a TEMPLATE, the template is parsed, resolved
+    (typed policy values are rendered as text and validated again), optionally expanded, the condition is fetched through
+    all_statement_conditions and called -- its answer must be that of the block evaluated directly (audit: condition objects were only
+    ever built directly; the template -> Statement -> resolve -> call path was exercised for "does not raise" only)"""
+    name = "parse(template).resolve()[.expand_actions()] -> all_statement_conditions[0](ctx)"
+    theorem = "C12_true_iff (the block that reaches the evaluator after parse / resolve / expand_actions is the block that was written)"
+    frozen = frozenset({"expand"})
+
+    def impl(self, x):
+        def run():
+            import pycfmodel
+            t = {"Resources": {"P": {"Type": "AWS::IAM::ManagedPolicy", "Properties": {"PolicyDocument": {"Version": "2012-10-17", "Statement": [
+                {"Effect": "Allow", "Action": "s3:GetObject", "Resource": "*", "Condition": copy.deepcopy(x["block"])}]}}}}}
+            m = pycfmodel.parse(t).resolve()
+            if x.get("expand"):
+                m = m.expand_actions()
+            conds = m.Resources["P"].all_statement_conditions
+            if len(conds) != 1:
+                return {"conditions-found": len(conds)}
+            return conds[0](ic.ctx_to_py(x["ctx"]))
+        return core.impl_call(run)
+
+    def agree(self, x, i, m):
+        if i[0] == "EXC" or m[0] == "EXC":
+            return i[0] == m[0] and (i[1] == m[1] or {i[1], m[1]} <= {"EValidation", "EValue"})
+        return ic.strict_same(i[1], m[1])
+
+    def tags(self, x):
+        return block_tags(x) | {"template-path"}
+
+
 def twin_contexts(rng, ctx):
     """contexts equal under == / hash but different for the operators: True~1~1.0, False~0~0.0; plus repeats"""
     swap = {True: [1, 1.0], False: [0, 0.0]}
@@ -211,7 +244,8 @@ class ConjunctionSurface(core.Surface):
 
 CALL, EVAL, CONJ = CallSurface(), EvalSurface(), ConjunctionSurface()
 SAME = SameObjectSurface()
-SURFACES = {s.name: s for s in (CALL, EVAL, CONJ, SAME)}
+TPATH = TemplatePathSurface()
+SURFACES = {s.name: s for s in (CALL, EVAL, CONJ, SAME, TPATH)}
 
 
 def prepare(rn):
@@ -399,6 +433,8 @@ def cases(rng, tier, shard, nshards):
         yield CALL, x
         if k % 3 == 0:
             yield EVAL, x
+        if k % 5 == 2:
+            yield TPATH, {"block": x["block"], "ctx": x["ctx"], "expand": k % 2 == 0}
         if k % 2 == 0:
             yield CONJ, x
         if k % 4 == 1:
